@@ -52,11 +52,15 @@ Init ==
   /\ steps = [k \in K |-> 0]
   /\ hist = <<>>
 
-Construct(h) ==
+\* the optimizer is built over parameters 1 and 2; parameter 2 may be frozen at that moment (fine-tuning: it is
+\* given to the optimizer while frozen and unfrozen later - from then on it is updated like any other)
+Construct(h, fz) ==
   /\ hyper = None /\ h \in Hypers
+  /\ fz => "freeze" \in Acts
   /\ hyper' = <<h>>
-  /\ hist' = Rec([a |-> "ctor", kind |-> Kind, h |-> h])
-  /\ UNCHANGED <<p, g, rg, buf, m1, m2, steps>>
+  /\ rg' = [rg EXCEPT ![2] = ~fz]
+  /\ hist' = Rec([a |-> "ctor", kind |-> Kind, h |-> h, fz |-> fz])
+  /\ UNCHANGED <<p, g, buf, m1, m2, steps>>
 
 H == hyper[1]
 
@@ -113,6 +117,7 @@ AdamNew(k) ==
   IN VSub(pdec, upd)
 
 Small(v) == \A e \in E : QAbs(v[e][1]) < 8000 /\ v[e][2] < 8000
+Tiny(v) == \A e \in E : QAbs(v[e][1]) < 256 /\ v[e][2] < 256
 
 Step ==
   /\ "step" \in Acts /\ CanAct
@@ -121,8 +126,11 @@ Step ==
           /\ p' = [k \in K |-> IF Active(k) THEN SgdNew(k) ELSE p[k]]
           /\ buf' = [k \in K |-> IF Active(k) THEN SgdBuf(k) ELSE buf[k]]
           /\ UNCHANGED <<m1, m2>>
-     ELSE /\ \A k \in K : Active(k) => AdamRootsOK(k)
-          /\ \A k \in K : Active(k) => Small(AdamNew(k)) /\ Small(AdamM2(k)) /\ Small(AdamM1(k))
+     ELSE \* (guards in this order: TLC integers are 32-bit, each stage is only evaluated on small inputs)
+          /\ \A k \in K : Active(k) => Tiny(AdamG(k))
+          /\ \A k \in K : Active(k) => Small(AdamM2(k)) /\ Small(AdamM1(k))
+          /\ \A k \in K : Active(k) => AdamRootsOK(k)
+          /\ \A k \in K : Active(k) => Small(AdamNew(k))
           /\ p' = [k \in K |-> IF Active(k) THEN AdamNew(k) ELSE p[k]]
           /\ m1' = [k \in K |-> IF Active(k) THEN <<AdamM1(k)>> ELSE m1[k]]
           /\ m2' = [k \in K |-> IF Active(k) THEN <<AdamM2(k)>> ELSE m2[k]]
@@ -132,7 +140,7 @@ Step ==
   /\ UNCHANGED <<g, rg, hyper>>
 
 Next ==
-  \/ \E h \in Hypers : Construct(h)
+  \/ \E h \in Hypers, fz \in BOOLEAN : Construct(h, fz)
   \/ \E s \in Scales : Backward(s)
   \/ ZeroGrad \/ Step
   \/ \E fr \in BOOLEAN : SetFrozen(2, fr)
